@@ -5,10 +5,11 @@ from ..values import SV, BoundMethod, ClassV, NativeFn, NativeObj, Obj, Opaque, 
 
 
 class Def(NativeObj):
-    def __init__(self, kind, variadic=False, optional=False):
+    def __init__(self, kind, variadic=False, optional=False, ext_name=None):
         self.kind = kind
         self.variadic = variadic
         self.optional = optional
+        self.ext_name = ext_name  # prop_name= / attr_name= : the key in the properties / attributes dict
 
     def __repr__(self):
         return f"<{self.kind}_def>"
@@ -16,7 +17,7 @@ class Def(NativeObj):
 
 def _mk(kind, variadic=False, optional=False):
     def f(interp, *a, **k):
-        return Def(kind, variadic, optional)
+        return Def(kind, variadic, optional, k.get("prop_name") or k.get("attr_name"))
 
     return NativeFn(f, f"{kind}_def")
 
@@ -96,9 +97,9 @@ def irdl_init(interp, self_obj, operands=(), result_types=(), properties=None, a
     attrs = dict(attributes) if attributes else {}
     for n, d in defs:
         if d.kind == "prop":
-            F[n] = props.get(n)
+            F[n] = props.get(d.ext_name or n)
         elif d.kind == "attr":
-            F[n] = attrs.get(n)
+            F[n] = attrs.get(d.ext_name or n)
     F["properties"] = props
     F["attributes"] = attrs
     gdefs = [(n, d) for n, d in defs if d.kind == "region"]
